@@ -6,15 +6,15 @@ export GOFLAGS=-mod=mod GOPROXY=off GOSUMDB=off GOTOOLCHAIN=local
 cp -r $W/patch.diff $W/meta.json $W/demo $S/ 2>/dev/null
 CMD=$(python3 -c "import json;print(json.load(open('$W/meta.json'))['demo_cmd'])")
 cd $W || exit 3
-[ -n "$(git status --porcelain --untracked-files=no)" ] || git apply patch.diff
+git checkout -- src 2>/dev/null; git apply patch.diff || { echo "$2: patch.diff does not apply"; exit 3; }
 echo "### baseline with change" > $S/confirm.log
 (cd $W/src && go test -vet=off -count=1 ./pkg/... 2>&1 | grep -v "^ok\|no test files" ) >> $S/confirm.log 2>&1
 echo "### demo WITH change" >> $S/confirm.log
 sh -c "$CMD" > $S/demo_with.log 2>&1; tail -5 $S/demo_with.log >> $S/confirm.log
-git stash -q
+git apply -R patch.diff
 echo "### demo WITHOUT change" >> $S/confirm.log
 sh -c "$CMD" > $S/demo_without.log 2>&1; tail -5 $S/demo_without.log >> $S/confirm.log
-git stash pop -q
+git apply patch.diff
 W_FAIL=$(grep -c "^FAIL\|--- FAIL" $S/demo_with.log); WO_OK=$(grep -c "^ok\|^PASS" $S/demo_without.log); WO_FAIL=$(grep -c "^FAIL\|--- FAIL" $S/demo_without.log)
 BASE_BAD=$(sed -n '/### baseline/,/### demo WITH/p' $S/confirm.log | grep "^FAIL" | grep -v "cupcake/rdb" | grep -vc "^FAIL$")
 echo "$2: demo_with_FAILs=$W_FAIL demo_without_ok=$WO_OK demo_without_FAILs=$WO_FAIL baseline_unexpected_fail_pkgs=$BASE_BAD"
